@@ -866,6 +866,52 @@ def slot_of_ptr(p):
     return None
 
 
+def _link_semantics(db, name, objs, root, extra_flags):
+    """archive members are linked only when they define a symbol some included object needs"""
+    from . import build
+    if name not in db["links"]:
+        return objs
+    direct = [o for o in db["links"][name] if o in db["units"]]
+    members = [o for o in objs if o not in direct]
+    # libsquashfs.la is a shared library: all of it is present
+    whole = set(direct)
+    for item in db["links"][name]:
+        if item in db["links"]:
+            whole |= set(build.artefact_objects(db, item))
+    dumps = build.build_ir(objs, root=root, extra_flags=extra_flags, db=db)
+    defs, refs = {}, {}
+    for o in objs:
+        with open(dumps[o]) as f:
+            d = json.load(f)
+        dd, rr = set(), set()
+        for fn in d["functions"]:
+            (rr if fn["decl"] else dd).add(fn["name"]) if not fn["internal"] else None
+        for g in d["globals"]:
+            if g.get("internal"):
+                continue
+            (rr if g.get("decl") else dd).add(g["name"])
+        defs[o], refs[o] = dd, rr
+    inc = [o for o in objs if o in whole]
+    incset = set(inc)
+    changed = True
+    while changed:
+        changed = False
+        need = set()
+        have = set()
+        for o in inc:
+            need |= refs[o]
+            have |= defs[o]
+        need -= have
+        for o in members:
+            if o in incset:
+                continue
+            if defs[o] & need:
+                inc.append(o)
+                incset.add(o)
+                changed = True
+    return [o for o in objs if o in incset]
+
+
 def load_program(name, objs_of=None, extra_flags=(), root=None):
     """name: artefact ('libsquashfs.la', 'gensquashfs', ...) or 'all'"""
     from . import build
@@ -883,6 +929,7 @@ def load_program(name, objs_of=None, extra_flags=(), root=None):
         objs = uniq
     else:
         objs = build.artefact_objects(db, name)
+        objs = _link_semantics(db, name, objs, root, extra_flags)
     if objs_of:
         objs = [o for o in objs if objs_of(db["units"][o]["src"])]
     dumps = build.build_ir(objs, root=root, extra_flags=extra_flags, db=db)
